@@ -539,6 +539,10 @@ impl Ctx {
         };
         match r {
             Ok(()) => {
+                // failures the body classified as known findings and kept searching behind
+                for f in &obs.known_hits {
+                    self.note_known(f);
+                }
                 let h = hash_debug(case);
                 self.record(sub, h, &obs, || {
                     serde_json::to_value(case).unwrap_or(Value::Null)
